@@ -317,6 +317,26 @@ def apply_mod(data, mod):
         data.atcorenums = cor
     elif op == "extra_nested":
         data.extra["nested"] = {"alist": [1, 2, [3, 4]], "adict": {"k": [1.5, "x"]}}
+    elif op == "extra_nones":
+        # None values deep inside the caller's nested extra dicts (JSON null), where the QCSchema writer passes them through
+        data.extra["nested"] = {"note": None, "adict": {"k": None, "l": [{"m": None, "n": 1}]}}
+        for key in ("molecule", "input", "output"):
+            sub = data.extra.get(key)
+            if isinstance(sub, dict):
+                for name in ("extras", "keywords", "unparsed", "identifiers", "properties", "wavefunction"):
+                    if name not in sub or isinstance(sub.get(name), dict):
+                        sub.setdefault(name, {})
+                        sub[name]["verif_null"] = None
+                        sub[name]["verif_deeper"] = {"a": None, "b": [{"c": None}], "d": 2}
+    elif op == "near_integer_occs":
+        # occupations that are integers up to noise of a few 1e-9 (as printed and re-read by other programs)
+        mo = data.mo
+        if mo is not None and mo.occs is not None and mo.kind != "generalized":
+            occs = np.array(mo.occs, float)
+            noise = np.array([((i * 7) % 5 - 2) * 1.3e-9 for i in range(len(occs))])
+            whole = np.abs(occs - np.round(occs)) < 1e-12
+            occs = np.where(whole, occs + noise, occs)
+            mo.occs = occs
     elif op == "title":
         data.title = mod["value"]
     else:
